@@ -9,7 +9,14 @@ namespace CV.Store
 open CV
 
 /-- the tables no catalog function except `assignVip` / `freeVip` (virtual IPs) and the commit hook (usage) writes -/
-def vipView (s : XState) : List VipRow × Option Nat × Option Nat × List UsageRow := (s.vips, s.freeIP, s.counter, s.usage)
+def vipView (s : XState) : List VipRow × Option Nat × Option Nat × List UsageRow × List CfgRow :=
+  (s.vips, s.freeIP, s.counter, s.usage, s.cfg)
+
+/-- the two commands that write the config-entry table -/
+def XCmd.isConfig : XCmd → Bool
+  | .configSet .. => true
+  | .configDelete .. => true
+  | _ => false
 
 structure VipClosed (P : XState → Prop) : Prop where
   view : ∀ s s' : XState, vipView s' = vipView s → P s → P s'
@@ -66,7 +73,7 @@ theorem vc_afterServiceDelete (hP : VipClosed P) (s : XState) (p : String) (v : 
   have h1 : P s1 := by
     unfold s1
     split
-    · exact hs
+    · exact hP.view s _ rfl hs
     · split
       · exact hP.view s0 _ rfl h0
       · exact h0
@@ -214,7 +221,8 @@ theorem vc_sysMetaSet (hP : VipClosed P) (s : XState) (k : String) (v : Option S
   unfold sysMetaSet
   cases v <;> exact hP.view s _ rfl hs
 
-theorem vc_configUpsert (hP : VipClosed P) {s s' : XState} {idx : Nat} {kind name tok : String} {dest : Bool}
+theorem vc_configUpsert (hP : VipClosed P) (hcfg : ∀ (s : XState) (cfg' : List CfgRow), P s → P { s with cfg := cfg' })
+    {s s' : XState} {idx : Nat} {kind name tok : String} {dest : Bool}
     (h : configUpsert s idx kind name dest tok = .ok s') (hs : P s) : P s' := by
   unfold configUpsert at h
   extract_lets s1 r2 at h
@@ -235,9 +243,12 @@ theorem vc_configUpsert (hP : VipClosed P) {s s' : XState} {idx : Nat} {kind nam
   · simp at h
   · next _ s2 =>
     simp at h; subst h
-    exact hP.view s2 _ rfl (h2 s2 rfl)
+    have key : ∀ (cfg' : List CfgRow) (g : Ghost), P { s2 with cfg := cfg', ghost := g } :=
+      fun cfg' g => hP.view { s2 with cfg := cfg' } _ rfl (hcfg s2 cfg' (h2 s2 rfl))
+    exact key _ _
 
-theorem vc_configDelete (hP : VipClosed P) (s : XState) (kind name : String) (hs : P s) : P (configDelete s kind name) := by
+theorem vc_configDelete (hP : VipClosed P) (hcfg : ∀ (s : XState) (cfg' : List CfgRow), P s → P { s with cfg := cfg' })
+    (s : XState) (kind name : String) (hs : P s) : P (configDelete s kind name) := by
   unfold configDelete
   split
   · exact hs
@@ -246,7 +257,7 @@ theorem vc_configDelete (hP : VipClosed P) (s : XState) (kind name : String) (hs
       unfold s1; split
       · exact hP.view s _ rfl hs
       · exact hs
-    have h2 : P s2 := hP.view s1 _ rfl h1
+    have h2 : P s2 := hcfg s1 _ h1
     split
     · exact hP.free s2 "" name h2
     · exact h2
@@ -378,14 +389,16 @@ theorem vc_liftSX {s : XState} {r : Except XErr XState} (hs : P s) (hr : ∀ s',
   | ok s' => exact hr s' rfl
   | error e => exact hs
 
-theorem vc_stepX (hP : VipClosed P) {s : XState} (idx : Nat) (c : XCmd) (hs : P s) : P (stepX s idx c).1 := by
+theorem vc_stepX (hP : VipClosed P)
+    {s : XState} (idx : Nat) (c : XCmd) (hcfg : c.isConfig = true → ∀ (s : XState) (cfg' : List CfgRow), P s → P { s with cfg := cfg' })
+    (hs : P s) : P (stepX s idx c).1 := by
   cases c with
   | register r => exact vc_liftSX hs (fun s' h => vc_registerX hP h hs)
   | deregister p node svcId chkId => exact vc_liftSX hs (fun s' h => vc_deregisterX hP h hs)
   | coords us => exact vc_coordUpdate hP s us hs
   | sysmeta k v => exact vc_sysMetaSet hP s k v hs
-  | configSet kind name dest tok => exact vc_liftSX hs (fun s' h => vc_configUpsert hP h hs)
-  | configDelete kind name => exact vc_configDelete hP s kind name hs
+  | configSet kind name dest tok => exact vc_liftSX hs (fun s' h => vc_configUpsert hP (hcfg rfl) h hs)
+  | configDelete kind name => exact vc_configDelete hP (hcfg rfl) s kind name hs
   | txn ops => simp only [stepX]; exact vc_txnRWX hP idx ops hs
   | store c =>
     cases c with
@@ -395,13 +408,15 @@ theorem vc_stepX (hP : VipClosed P) {s : XState} (idx : Nat) (c : XCmd) (hs : P 
     | _ => all_goals (simp only [stepX]; exact hP.view s _ rfl hs)
 
 theorem vc_applyX (hP : VipClosed P) (hu : ∀ (s : XState) (u : List UsageRow), P s → P { s with usage := u })
+    (hcfg : ∀ (s : XState) (cfg' : List CfgRow), P s → P { s with cfg := cfg' })
     {s : XState} (idx : Nat) (c : XCmd) (hs : P s) : P (applyX s idx c).1 := by
-  have h1 := vc_stepX hP idx c hs
+  have h1 := vc_stepX hP idx c (fun _ => hcfg) hs
   have : (applyX s idx c).1 = commitUsage s (stepX s idx c).1 idx := rfl
   rw [this]
   exact hu _ _ h1
 
-theorem vc_replayX (hP : VipClosed P) (hu : ∀ (s : XState) (u : List UsageRow), P s → P { s with usage := u }) :
+theorem vc_replayX (hP : VipClosed P) (hu : ∀ (s : XState) (u : List UsageRow), P s → P { s with usage := u })
+    (hcfg : ∀ (s : XState) (cfg' : List CfgRow), P s → P { s with cfg := cfg' }) :
     ∀ (log : XLog) (s : XState), P s → P (replayX s log) := by
   intro log
   induction log with
@@ -410,7 +425,7 @@ theorem vc_replayX (hP : VipClosed P) (hu : ∀ (s : XState) (u : List UsageRow)
     intro s hs
     unfold replayX
     simp only [List.foldl_cons]
-    exact ih _ (vc_applyX hP hu ic.1 ic.2 hs)
+    exact ih _ (vc_applyX hP hu hcfg ic.1 ic.2 hs)
 
 
 /-! ### well-formedness of the virtual-IP tables -/
@@ -557,15 +572,18 @@ theorem vipWF_closed : VipClosed VipWF where
 theorem vipWF_usage (s : XState) (u : List UsageRow) (h : VipWF s) : VipWF { s with usage := u } :=
   ⟨h.nodup, h.keys, h.free_not_assigned, h.bound, h.free_bound⟩
 
+theorem vipWF_cfg (s : XState) (cfg' : List CfgRow) (h : VipWF s) : VipWF { s with cfg := cfg' } :=
+  ⟨h.nodup, h.keys, h.free_not_assigned, h.bound, h.free_bound⟩
+
 theorem vipWF_replayX (log : XLog) : VipWF (replayX XState.empty log) :=
-  vc_replayX vipWF_closed vipWF_usage log _ VipWF.empty
+  vc_replayX vipWF_closed vipWF_usage vipWF_cfg log _ VipWF.empty
 
 /-- no catalog function writes the usage table (only the commit hook does) -/
 theorem usage_closed (u0 : List UsageRow) : VipClosed (fun s => s.usage = u0) where
   view := by
     intro s s' hv hs
     simp only [vipView, Prod.mk.injEq] at hv
-    rw [hv.2.2.2]; exact hs
+    rw [hv.2.2.2.1]; exact hs
   assign := by
     intro s s' idx ip p n h hs
     unfold assignVip at h
@@ -584,7 +602,38 @@ theorem usage_closed (u0 : List UsageRow) : VipClosed (fun s => s.usage = u0) wh
     all_goals exact hs
 
 theorem usage_stepX (s : XState) (idx : Nat) (c : XCmd) : (stepX s idx c).1.usage = s.usage :=
-  vc_stepX (usage_closed s.usage) idx c rfl
+  vc_stepX (usage_closed s.usage) idx c (fun _ _ _ h => h) rfl
+
+/-- no catalog function except the two config-entry commands writes the config-entry table -/
+theorem cfg_closed (c0 : List CfgRow) : VipClosed (fun s => s.cfg = c0) where
+  view := by
+    intro s s' hv hs
+    simp only [vipView, Prod.mk.injEq] at hv
+    rw [hv.2.2.2.2]; exact hs
+  assign := by
+    intro s s' idx ip p n h hs
+    unfold assignVip at h
+    split at h
+    · simp at h; rw [← h.1]; exact hs
+    · split at h
+      · simp at h; rw [← h.1]; exact hs
+      · extract_lets cur new at h
+        split at h
+        · simp at h
+        · simp at h; rw [← h.1]; exact hs
+  free := by
+    intro s p n hs
+    unfold freeVip
+    repeat' split
+    all_goals exact hs
+
+theorem cfg_stepX (s : XState) (idx : Nat) (c : XCmd) (hc : c.isConfig = false) : (stepX s idx c).1.cfg = s.cfg :=
+  vc_stepX (cfg_closed s.cfg) idx c (fun h => by rw [hc] at h; cases h) rfl
+
+theorem cfg_assignVip {s s' : XState} {idx ip : Nat} {p n : String} (h : assignVip s idx p n = .ok (s', ip)) : s'.cfg = s.cfg :=
+  (cfg_closed s.cfg).assign s s' idx ip p n h rfl
+
+theorem cfg_freeVip (s : XState) (p n : String) : (freeVip s p n).cfg = s.cfg := (cfg_closed s.cfg).free s p n rfl
 
 
 /-! ### what a registration advertises is the assignment of that moment -/
